@@ -1,6 +1,6 @@
 (* Extraction of the C04 model (the Validator): ExtrOcamlBasic + ExtrOcamlString only; nat/N/Z/Q stay inductive. *)
 From Coq Require Import Extraction ExtrOcamlBasic ExtrOcamlString.
-From LC Require Import Common MathDefs ValidDefs.
+From LC Require Import Common NumDefs MathDefs ValidDefs.
 Definition valid_is_ident := ValidDefs.is_ident.
 Extraction "valid_model.ml" nat_to_string validate_now validate ueq_c08 vrule_name vrule_num all_vrules is_xml_name
-  valid_is_ident current_early current_fixes all_fixed unfixed mkFx mkUI mkIS mkU mkE mkV mkR mkC mkM.
+  valid_is_ident real_dfa int_dfa current_early current_fixes all_fixed unfixed mkFx mkUI mkIS mkU mkE mkV mkR mkC mkM.
